@@ -24,10 +24,10 @@ PROPS = {
         "design_ref": "DESIGN.md §4 C01",
         "rule": "case = (pool size, multiplier, wake mode, producer programs, gate plan, perturbation) from the seeded generator; non-trivial = at least two tasks were handed to the pool; distinct by full spec",
         "required_classes": ["pool0", "pool1-8", "pool9+", "poll", "wake", "gated-dtor", "free", "fut", "futkids", "pool-task-producer", "multi-producer",
-                             "bulk>16", "mult1", "ran:worker", "ran:caller-inline", "ran:pool-dtor"],
+                             "bulk>16", "mult1", "hint-race", "ran:worker", "ran:caller-inline", "ran:pool-dtor"],
         "assumptions": _A,
         "runs": {
-            "quick": [{"config": "plain", "shards": 16}, {"config": "tsan", "shards": 16, "args": {"n": 96}}, {"config": "asan", "shards": 16, "args": {"n": 160}}],
+            "quick": [{"config": "plain", "shards": 16, "args": {"n": 400}}, {"config": "tsan", "shards": 16, "args": {"n": 64}}, {"config": "asan", "shards": 16, "args": {"n": 128}}],
             "thorough": [{"config": "plain", "shards": 16, "seeds": 5}, {"config": "tsan", "shards": 16, "args": {"n": 1500}}, {"config": "asan", "shards": 16, "args": {"n": 3000}}],
         },
     },
@@ -46,7 +46,7 @@ PROPS = {
                              "dtor-barrier", "future", "then", "when_all", "bulk", "fq", "parfor", "ran:waiter", "ran:worker", "wait-with-outstanding"],
         "assumptions": _A,
         "runs": {
-            "quick": [{"config": "plain", "shards": 16}, {"config": "tsan", "shards": 16, "args": {"n": 128}}, {"config": "asan", "shards": 16, "args": {"n": 240}}],
+            "quick": [{"config": "plain", "shards": 16, "args": {"n": 480}}, {"config": "tsan", "shards": 16, "args": {"n": 64}}, {"config": "asan", "shards": 16, "args": {"n": 128}}],
             "thorough": [{"config": "plain", "shards": 16, "seeds": 5}, {"config": "tsan", "shards": 16, "args": {"n": 2000}}, {"config": "asan", "shards": 16, "args": {"n": 4000}}],
         },
     },
